@@ -807,7 +807,11 @@ fn run_eventually(a: &Args, shared: &SharedReport, checks: Vec<&'static str>, wi
             for ma in 0..nm {
                 let mbs: Vec<u32> = if th { vec![(ma * 3 + 1) % nm, !ma & (nm - 1)] } else { vec![(ma * 3 + 1) % nm] };
                 for mb in mbs {
-                    for props in eventually_propsets(n, ma as u8, mb as u8, th) {
+                    for (pi, props) in eventually_propsets(n, ma as u8, mb as u8, th).into_iter().enumerate() {
+                        if !th && n == 3 && (pi as u32 + ma) % 2 == 1 {
+                            // quick: alternate the two property sets over the masks at n=3
+                            continue;
+                        }
                         idx += 1;
                         let m = GraphModel { props, ..core.clone() };
                         let mut strategies = exhaustive_strategies();
